@@ -1,4 +1,5 @@
 import Props.C03
+import SdxProofs.Relabel
 set_option linter.unusedSectionVars false
 /-!
 # C05 — Releases are reproducible and consistent across syntheses
@@ -30,5 +31,39 @@ theorem C05_noise_depends_on_seeds_only (E : Env α) (ap : AnonParams α) (bs se
     countSingle E ap bs c seed =
       ScalarOps.roundHE ((c : α) + (ap.noiseSd * E.z (noiseSeed E ap.salt bs) + ap.noiseSd * E.z (noiseSeed E ap.salt seed))) :=
   C03_single_structure E ap bs c seed
+
+end
+
+/-! ## The tree of a set of columns does not depend on the other columns nor on where the columns sit
+
+Stated for the scalar type the model is generic in (so it holds of the `Float` model that is compared with the code, not
+only over exact fields). `Agree c c' ρ S`: the two normalised tables agree on the columns `S` up to the renaming `ρ` of
+column positions, have the same entity ids, parameters and number of rows; anything else about them may differ. -/
+
+section
+variable {α : Type} [Add α] [Sub α] [Mul α] [Div α] [LT α] [LE α] [BEq α]
+  [DecidableLT α] [DecidableLE α] [ScalarOps α] [Inhabited α]
+
+/-- T05.b (step)  inserting a row commutes with renaming the columns: same decisions, same splits, same children, same
+sub-node look-ups, whatever the other columns hold. -/
+theorem C05_add_row_position_independent (E : Env α) (c c' : FCtx α) (ρ : Nat → Nat) (S : List Nat) (h : Agree c c' ρ S)
+    (rl : Int) (fuel depth : Nat) (t : Node α) (row : Nat) (hT : CombIn S t) :
+    addRow E c' rl fuel depth (Node.relabel ρ t) row = (addRow E c rl fuel depth t row).map (Node.relabel ρ) :=
+  (addRow_relabel E h rl fuel depth t row hT).1
+
+/-- T05.b  the whole tree of a column combination over the second table is the tree over the first table with the
+column ids renamed — given the same seed (a function of the column names), the same root ranges (a function of the
+columns' values) and sub-trees related in the same way. Nothing else about the two tables enters. -/
+theorem C05_tree_position_independent (E : Env α) (c c' : FCtx α) (ρ : Nat → Nat) (S : List Nat) (h : Agree c c' ρ S)
+    (rl : Int) (comb : List Nat) (hc : ∀ j ∈ comb, j ∈ S) (seed : UInt64) (subs : List (Option (Node α)))
+    (snapped : List (Ival α)) :
+    buildRows E c' rl (mkLeaf E c' (comb.map ρ) [] seed (subs.map (Option.map (Node.relabel ρ))) snapped 0) =
+      (buildRows E c rl (mkLeaf E c comb [] seed subs snapped 0)).map (Node.relabel ρ) :=
+  buildRows_relabel E h rl comb hc seed subs snapped
+
+/-- T05.b  and the count released for any node of it is the same. -/
+theorem C05_count_position_independent (E : Env α) (c c' : FCtx α) (ρ : Nat → Nat) (S : List Nat) (h : Agree c c' ρ S)
+    (n : Node α) : (Node.relabel ρ n).noisyCount E c' = n.noisyCount E c :=
+  relabel_noisyCount E h n
 
 end
